@@ -1340,8 +1340,10 @@ class Collocator:
             return False
 
         try:
-            return np.allclose(lat, self.index.lat) \
-                   & np.allclose(lon, self.index.lon)
+            # The points must be identical, np.allclose would accept points
+            # that are up to ~1e-5 * 111 km * |lat| away from the cached ones:
+            return np.array_equal(lat, self.index.lat) \
+                   & np.array_equal(lon, self.index.lon)
         except ValueError:
             # The shapes are different
             return False
